@@ -9,7 +9,8 @@ J == ph = 1
 T == Traces[i]
 N == Len(T.ev)
 RECURSIVE Model(_)
-Model(n) == IF n = 0 THEN L0 ELSE Step(Model(n - 1), T.ev[n].kind)
+\* (a kind that does not exist on a stream connection is recorded as "skipped" there: nothing happened)
+Model(n) == IF n = 0 THEN L0 ELSE IF T.ev[n].outcome = "skipped" THEN Model(n - 1) ELSE Step(Model(n - 1), T.ev[n].kind)
 Tb(n) == T.ev[n].t
 \* every exchange ran to its end: all calls involved returned (C09 territory, but nothing can be judged otherwise)
 C13_AllEnded == J => \A n \in 1..N : T.ev[n].done
@@ -26,5 +27,5 @@ C13_Obs   == J => \A n \in 1..N : Tb(n).obs = Model(n).obs
 \* "cached replies disappear after the exchange lifetime"
 C13_RCache == J => \A n \in 1..N : Tb(n).rcache <= Model(n).rcache
 \* conformance only: exactly what the specification predicts is held
-K13_Conforms == J => \A n \in 1..N : (Tb(n).bwRecv = Model(n).bwRecv /\ Tb(n).bwSend = Model(n).bwSend /\ Tb(n).rcache = Model(n).rcache)
+K13_Conforms == (J /\ T.transport = "udp") => \A n \in 1..N : (Tb(n).bwRecv = Model(n).bwRecv /\ Tb(n).bwSend = Model(n).bwSend /\ Tb(n).rcache = Model(n).rcache)
 =============================================================================
